@@ -91,18 +91,20 @@ def ofExpr (pre : Prefixes K) (t : Lut K) (e : UExpr K) : Except Err (UnitV K ×
       else .ok (⟨⟨e.coeff, nf⟩, e.coeff * v, 0, d, true⟩, t')
     | _ => .ok (⟨⟨e.coeff, nf⟩, e.coeff * v, 0, d, true⟩, t')
 
+/-- the offset rule of `Unit.__mul__` -/
+def mulOffset (u v : UnitV K) : Except Err K :=
+  if u.offset != 0 || v.offset != 0 then
+    if v.isTempOrAngle && u.isDimensionless then .ok v.offset
+    else if u.isTempOrAngle && v.isDimensionless then .ok u.offset
+    else .error .InvalidUnitOperation
+  else .ok 0
+
 /-- `Unit.__mul__` on two units -/
 def mul (u v : UnitV K) : Except Err (UnitV K) :=
   if u.isLogarithmic && !v.isDimensionless then .error .InvalidUnitOperation
   else if v.isLogarithmic && !u.isDimensionless then .error .InvalidUnitOperation
   else
-    let off : Except Err K :=
-      if u.offset != 0 || v.offset != 0 then
-        if v.isTempOrAngle && u.isDimensionless then .ok v.offset
-        else if u.isTempOrAngle && v.isDimensionless then .ok u.offset
-        else .error .InvalidUnitOperation
-      else .ok 0
-    match off with
+    match mulOffset u v with
     | .error e => .error e
     | .ok o => .ok ⟨u.expr.mul v.expr, u.scale * v.scale, o, u.dim * v.dim, true⟩
 
@@ -127,6 +129,19 @@ def pow (u : UnitV K) (p : Rat) : Except Err (UnitV K) :=
 
 end
 
+/-- well-formed: only temperature- or angle-dimensioned units carry an offset (true of every
+    table row and preserved by the operations) -/
+def WF [OfNat K 0] (u : UnitV K) : Prop := u.offset ≠ 0 → u.isTempOrAngle = true
+
+/-- `Unit.as_coeff_unit`: `(coeff, Unit(mul, base_value / coeff, base_offset, dimensions))` -/
+def asCoeffUnit [Div K] [OfNat K 1] (u : UnitV K) : K × UnitV K :=
+  (u.expr.coeff, ⟨⟨1, u.expr.factors⟩, u.scale / u.expr.coeff, u.offset, u.dim, u.canon⟩)
+
+/-- two unit values denote the same unit: same scale, offset, dimension, and expressions
+    with the same coefficient and the same exponent for every symbol -/
+def Equiv (u v : UnitV K) : Prop :=
+  u.scale = v.scale ∧ u.offset = v.offset ∧ u.dim = v.dim ∧ u.expr.Equiv v.expr
+
 /-- `Unit.__eq__` at a lawful carrier: exact equality of scale and offset, equal dimensions
     (at `Float` the driver uses `math.isclose`, see `eqFloat`) -/
 def eqv [BEq K] (u v : UnitV K) : Bool := u.scale == v.scale && u.offset == v.offset && u.dim == v.dim
@@ -135,5 +150,11 @@ def eqFloat (u v : UnitV Float) : Bool :=
   Float.isclose u.scale v.scale && Float.isclose u.offset v.offset && u.dim == v.dim
 
 end UnitV
+
+/-- outcomes agree: the same refusal, or values related by `R` -/
+def ExceptRel {α : Type} (R : α → α → Prop) : Except Err α → Except Err α → Prop
+  | .ok a, .ok b => R a b
+  | .error e, .error f => e = f
+  | _, _ => False
 
 end Unyt
